@@ -76,7 +76,9 @@ theorem supersede_cancels_own_slot_only (w : World) (ci i o si : Nat) (c : Clien
     (hto : r.to = some si) (hs : getSrv w si = some s) (hother : (slotOf s r.newid).rq ≠ some o) :
     (removeclientrq w ci i).servers = w.servers := by
   unfold removeclientrq
-  simp only [hc, hcache, hr, hto, hs, hother, if_false]
+  simp only [hc, hcache]
   rw [freerq_servers, updCli_servers]
+  unfold cancelOutstanding
+  simp only [hr, hto, hs, hother, if_false]
 
 end Rsp.Props.C10
